@@ -209,6 +209,8 @@ func newWorld() *World {
 	w.decls.declare("Fn", "(declare-sort Fn 0)")
 	w.decls.declare("Range", "(declare-datatypes ((Range 0)) (((mkRange (From Int) (To Int)))))")
 	w.decls.declare("nilT", "(declare-fun nilT () T)")
+	w.decls.declare("nil_Fn", "(declare-fun nil_Fn () Fn)")
+	w.decls.declare("nilData", "(declare-fun nilData () Data)")
 	return w
 }
 
